@@ -140,6 +140,9 @@ func (rb *runtBatch) onWrite(c *fakenet.Conn, a *trAdv, data []byte) {
 		}
 		wid := binary.BigEndian.Uint16(f)
 		seq := binary.BigEndian.Uint64(f[2:])
+		if seq&^0xffff != 1<<56|1<<40 || int(seq&0xffff) >= rb.cfg.Callers {
+			continue // not a query of this batch (only possible if the write stream is mis-framed)
+		}
 		rb.mu.Lock()
 		if rb.c1 == nil {
 			rb.c1 = c
